@@ -34,7 +34,6 @@ func (c *collector) violation(assertion, sig, detail string, replay interface{})
 		violFile.Write(append(bz, '\n'))
 	}
 	c.r.AddViolation(core.Violation{Property: c.r.Property, Assertion: assertion, Signature: sig, Detail: detail, Replay: replay})
-	c.r.Extra["sum_violating_points_"+assertion] = asInt(c.r.Extra["sum_violating_points_"+assertion]) + 1
 }
 func (c *collector) vac(name string)     { c.r.Vacuity[name]++ }
 func (c *collector) reject(class string) { c.r.Rejected[class]++ }
@@ -133,11 +132,6 @@ func replay(f *core.Flags, sk *collector) {
 	}
 	var c Case
 	core.ReadReplay(f.Replay, &c)
-	sk.r.States++
-	if c.Pool == "bal" {
-		evalBal(sk, c)
-	} else {
-		evalStable(sk, c)
-	}
+	runCase(sk, c)
 	fmt.Printf("replay: %s rejected=%v\n", c.sig(), sk.r.Rejected)
 }
